@@ -601,6 +601,11 @@ type lcGen struct {
 	tAssets    map[uint64]bool
 	forceAsset uint64 // directed stream: the next forceN groups are touch-then-fail groups on this asset
 	forceN     int
+	// rewards-band stream (C21): a case whose rewards level really moves, with a non-participating account that keeps
+	// transacting; bandQ holds the pending (account, mode) spends of the current block
+	bandCase  bool
+	bandAccts []uint64
+	bandQ     [][2]string
 }
 
 func (g *lcGen) pick(xs ...uint64) uint64 { return xs[g.r.Intn(len(xs))] }
@@ -1342,6 +1347,79 @@ func (g *lcGen) scriptAliasSetup(v *lcView) []string {
 	return out
 }
 
+// manyAssets: one group in which `a` creates n assets, raising its min balance above one reward unit
+func (g *lcGen) manyAssets(a uint64, n int) string {
+	var ts []string
+	for i := 0; i < n; i++ {
+		ts = append(ts, lcSetTag(g.ph("acfg", a)+fmt.Sprintf(",0,%d,0,0,%d,0,0,0", 10+i, a), "1"))
+	}
+	return "group " + strings.Join(ts, ";")
+}
+
+// genBand: a payment by `a` whose post-state sits at min balance − k.  For a participating account the balance counts its
+// pending rewards (they are credited by the payment itself); for a NON-PARTICIPATING account nothing is pending, and
+// p = floor(post/RewardUnit)·(level − RewardsBase) is what a status-blind rewards formula would wrongly add.
+// modes: "p+1", "p", "1" (all must be rejected), "0", "-1" (accepted).
+func (g *lcGen) genBand(v *lcView, a uint64, mode string) string {
+	d := v.acct[a]
+	min := g.minBal * (1 + d.TotalAssets)
+	eff := d.MicroAlgos.Raw
+	if d.Status != basics.NotParticipating {
+		eff = g.balWP(d)
+	}
+	var delta uint64
+	if g.level > d.RewardsBase {
+		delta = g.level - d.RewardsBase
+	}
+	p := (min / g.unit) * delta
+	if p > 0 && ((min-minU(p, min))/g.unit)*delta < p { // the phantom amount shrinks with the balance: land on whole units
+		p = min - (min/g.unit)*g.unit
+		if p == 0 || delta < p {
+			p = minU(delta, min)
+		}
+	}
+	var post uint64
+	switch mode {
+	case "p+1":
+		post = min - minU(p+1, min)
+	case "p":
+		post = min - minU(maxU(p, 1), min)
+	case "1":
+		post = min - 1
+	case "0":
+		post = min
+	default:
+		post = min + 1
+	}
+	if eff < post+g.minFee {
+		return ""
+	}
+	rcv := uint64(0)
+	for try := 0; try < 12 && rcv == 0; try++ {
+		r := g.user()
+		if r != a && v.acct[r].MicroAlgos.Raw >= g.minBal {
+			rcv = r
+		}
+	}
+	if rcv == 0 {
+		return ""
+	}
+	return "group " + g.ph("pay", a) + fmt.Sprintf(",%d,%d,0", rcv, eff-g.minFee-post)
+}
+
+func minU(a, b uint64) uint64 {
+	if a < b {
+		return a
+	}
+	return b
+}
+func maxU(a, b uint64) uint64 {
+	if a > b {
+		return a
+	}
+	return b
+}
+
 // scriptManagerDestroy: the manager is not the creator; it tries to destroy while IT holds the whole supply (rejected: the
 // creator must), then hands the supply back and destroys.
 func (g *lcGen) scriptManagerDestroy(v *lcView) []string {
@@ -1410,6 +1488,16 @@ func (g *lcGen) genesis() string {
 	mb := uint64(100000)
 	var gbal [lcN]uint64
 	huge := false
+	// band case: one funded NON-PARTICIPATING account (rewards base frozen at 0), a large non-participating pool and a small
+	// participating stake, so that the rewards level rises by thousands per round
+	g.bandCase = (g.profile == "c21" && g.r.Chance(50)) || (g.profile != "c21" && g.r.Chance(12))
+	g.bandAccts = nil
+	np := uint64(0)
+	if g.bandCase {
+		np = g.user()
+		g.bandAccts = []uint64{np}
+		huge = true
+	}
 	for id := uint64(1); id <= 6; id++ {
 		var bal uint64
 		switch g.r.Intn(10) {
@@ -1439,6 +1527,10 @@ func (g *lcGen) genesis() string {
 		} else if g.r.Chance(8) {
 			st = 2
 		}
+		if id == np {
+			st, vid, sid, spid, vf, vl, vkd, ie = 2, 0, 0, 0, 0, 0, 0, "0"
+			bal = uint64(5+g.r.Intn(60))*1000000 + uint64(g.r.Intn(1000000))
+		}
 		gbal[id] = bal
 		fmt.Fprintf(&sb, " A%d=%d,%d,0,0,%s,0,0,0,0,%d,%d,%d,%d,%d,%d", id, st, bal, ie, vid, sid, spid, vf, vl, vkd)
 	}
@@ -1448,6 +1540,9 @@ func (g *lcGen) genesis() string {
 	pst := 2
 	if g.r.Chance(10) {
 		pst = 0
+	}
+	if g.bandCase {
+		pool, pst = g.pick(1000000000, 500000000000, 500000000000, 2000000000000), 2
 	}
 	fmt.Fprintf(&sb, " A%d=%d,%d,0,0,0,0,0,0,0,0,0,0,0,0,0", lcPool, pst, pool)
 	// genesis assets (ids below the txn counter)
@@ -1499,6 +1594,9 @@ func TestVerifLcore(t *testing.T) {
 		op := g.genesis()
 		out.Emit(op, h.exec(op))
 		blocks := 1 + g.r.Intn(3)
+		if g.bandCase {
+			blocks = 2 + g.r.Intn(2)
+		}
 		for b := 0; b < blocks; b++ {
 			obs := vh.Catch(func() string { return h.startBlock() })
 			if strings.HasPrefix(obs, "PANIC") {
@@ -1517,7 +1615,28 @@ func TestVerifLcore(t *testing.T) {
 				tf = 18
 			}
 			var script []string
-			if ((profile == "c19" || profile == "c22") && g.r.Chance(35)) || g.r.Chance(8) {
+			g.bandQ = nil
+			if g.bandCase {
+				v0 := h.view()
+				if b == 0 {
+					// raise the non-participating account's requirement above one reward unit; sometimes a second account
+					// goes non-participating by keyreg now (its base freezes at this block's level) and does the same
+					script = append(script, g.manyAssets(g.bandAccts[0], 10+g.r.Intn(4)))
+					if u := g.funded(v0, 2, 4000000); g.r.Chance(60) && len(u) > 0 && u[0] != g.bandAccts[0] && v0.acct[u[0]].Status == basics.Offline {
+						script = append(script, "group "+g.ph("keyreg", u[0])+",0,0,0,0,0,0,1", g.manyAssets(u[0], 10+g.r.Intn(3)))
+						g.bandAccts = append(g.bandAccts, u[0])
+					}
+				}
+				accts := append([]uint64{}, g.bandAccts...)
+				if u := g.funded(v0, 1, 2000000); len(u) > 0 { // and one participating account with a stale rewards base
+					accts = append(accts, u[0])
+				}
+				for _, a := range accts {
+					for _, m := range []string{"p+1", "p", "1", g.pick1("0", "-1")} {
+						g.bandQ = append(g.bandQ, [2]string{strconv.FormatUint(a, 10), m})
+					}
+				}
+			} else if ((profile == "c19" || profile == "c22") && g.r.Chance(35)) || g.r.Chance(8) {
 				script = g.scriptAliasSetup(h.view())
 			} else if profile == "c22" && g.r.Chance(15) {
 				script = g.scriptManagerDestroy(h.view())
@@ -1526,10 +1645,17 @@ func TestVerifLcore(t *testing.T) {
 			} else if (profile == "c21" && g.r.Chance(60)) || (profile != "c21" && g.r.Chance(10)) {
 				script = g.scriptMinBal(h.view())
 			}
-			for i := 0; i < ngroups+len(script); i++ {
+			total := ngroups + len(script) + len(g.bandQ)
+			for i := 0; i < total; i++ {
 				v := h.view()
 				var op string
+				for op == "" && i >= len(script) && len(g.bandQ) > 0 {
+					q := g.bandQ[0]
+					g.bandQ = g.bandQ[1:]
+					op = g.genBand(v, vh.U(q[0]), q[1])
+				}
 				switch {
+				case op != "":
 				case i < len(script):
 					op = script[i]
 				case g.forceN > 0:
